@@ -6,6 +6,7 @@ verus! {
 //@include lib/prelude.rs
 //@include lib/keys.rs
 //@include lib/specs_store.rs
+//@include lib/forest.rs
 //@include lib/reader_types.rs
 
 impl NodeId {
@@ -34,6 +35,33 @@ pub open spec fn nodes_ok(v: DbView, i: u16) -> bool {
 }
 pub open spec fn leafv(v: DbView, i: u16, id: u32) -> LeafV { v[ikey(i, id)]->Leaf_0 }
 pub open spec fn in_filter(c: Option<&RoaringBitmap>, id: u32) -> bool { match c { Some(b) => b@.contains(id), None => true } }
+
+// ---- C04 (reader side): what a queued entry is ---------------------------------------------------------------------------
+/// entry `e` is the left (right) child of split `pid`, queued with the priority computed from the parent's bound `d`
+/// and the margin of the QUERY against that split's plane, for the Left (Right) side
+pub open spec fn child_entry(m: TM, qv: VecV, w: (u32, OrderedFloat), e: (OrderedFloat, NodeId)) -> bool {
+    let pid = w.0; let d = w.1.0;
+    m.contains_key(pid) && (m[pid] matches TNode::Split(l, r, nrm) &&
+        ((e.1 == l && e.0.0 == Dist::pq_spec(d, Dist::margin_spec(nrm, qv), true)) || (e.1 == r && e.0.0 == Dist::pq_spec(d, Dist::margin_spec(nrm, qv), false))))
+}
+pub open spec fn qentry_ok(m: TM, roots: Seq<u32>, qv: VecV, e: (OrderedFloat, NodeId)) -> bool {
+    (e.1.mode == NodeMode::Tree && roots.contains(e.1.item)) || (exists|w: (u32, OrderedFloat)| #[trigger] child_entry(m, qv, w, e))
+}
+// ---- C02: exact search ------------------------------------------------------------------------------------------------------
+/// the forest invariant of C01 as the reader needs it: every root's tree is well formed and covers exactly the stored items
+pub open spec fn search_forest_ok(v: DbView, i: u16, roots: Seq<u32>, items: Set<u32>) -> bool {
+    let m = tmap(v, i);
+    &&& (forall|k: int| 0 <= k < roots.len() ==> tree(m, tn(#[trigger] roots[k])) && titems(m, tn(roots[k])) == items)
+    &&& (forall|id: u32| #![trigger items.contains(id)] items.contains(id) <==> v.contains_key(ikey(i, id)))
+    &&& (items.len() > 0 ==> roots.len() > 0)
+}
+pub open spec fn covered(m: TM, nns: Seq<u32>, q: Multiset<(OrderedFloat, NodeId)>, x: u32) -> bool {
+    nns.contains(x) || (exists|e: (OrderedFloat, NodeId)| #![trigger q.count(e)] q.count(e) > 0 && titems(m, e.1).contains(x))
+}
+pub uninterp spec fn f32_inf_spec() -> f32;
+pub open spec fn unlimited(opt: &QueryBuilder, n_roots: usize) -> bool {
+    sat_mul(match opt.search_k { Some(k) => k.v, None => sat_mul(opt.count, n_roots) }, match opt.oversampling { Some(o) => o.v, None => Dist::default_oversampling() }) == usize::MAX
+}
 
 impl Reader {
 //@extract src/reader.rs | impl<'t, D: Distance> Reader<'t, D> | nns
@@ -89,6 +117,12 @@ let mut nns_distances: Vec<Reverse<(OrderedFloat, ItemId)>> = Vec::with_capacity
 >>>
 //@subst
 <<<
+let mut output = Vec::with_capacity(
+===
+let mut output: Vec<(ItemId, f32)> = Vec::with_capacity(
+>>>
+//@subst
+<<<
 nns.sort_unstable();
 ===
 sort_unstable_(&mut nns);
@@ -120,6 +154,13 @@ dedup_(&mut nns);
                     (Dist::built_spec(query_leaf.lv(), leafv(v, self.index, out@[i].0)), out@[i].0),
                     (Dist::built_spec(query_leaf.lv(), leafv(v, self.index, out@[j].0)), out@[j].0)))
         }),
+        // C02: with an unlimited budget on a forest that satisfies C01 the result is exact:
+        r matches Ok(out) ==> (search_forest_ok(rtxn.view(), self.index, self.roots@, self.items@) && unlimited(opt, self.roots@.len() as usize) ==>
+            // every stored item inside the filter is either returned, or the result is full and the item is not nearer than any returned one
+            forall|id: u32| #![trigger self.items@.contains(id)] self.items@.contains(id) && in_filter(opt.candidates, id) ==>
+                exact_at_exit(rtxn.view(), self.index, query_leaf.lv(), opt.count, out@, id)),
+        // on a C01 forest the search never fails for a missing key
+        search_forest_ok(rtxn.view(), self.index, self.roots@, self.items@) ==> !(r matches Err(Error::MissingKey { .. })),
         r matches Err(e) ==> e is Heed || e is MissingKey,
 //@hint before <<<sort_unstable_(&mut nns);>>>
         let ghost nns_a = nns@;
@@ -127,13 +168,21 @@ dedup_(&mut nns);
         let ghost nns_b = nns@;
 //@hint after <<<dedup_(&mut nns);>>>
         proof {
-            assert forall|i: int| 0 <= i < nns@.len() implies in_filter(opt.candidates, #[trigger] nns@[i]) by {
+            assert forall|i: int| 0 <= i < nns@.len() implies in_filter(opt.candidates, #[trigger] nns@[i]) && (sf ==> items.contains(nns@[i])) by {
                 let x = nns@[i];
                 assert(nns@.contains(x));
                 assert(nns_b.contains(x));
                 assert(nns_a.contains(x));
                 let j = choose|j: int| 0 <= j < nns_a.len() && nns_a[j] == x;
                 assert(in_filter(opt.candidates, nns_a[j]));
+            }
+            // C02: with the queue drained, every stored item inside the filter is among the candidates
+            if sf && unl {
+                assert forall|x: u32| #![trigger items.contains(x)] items.contains(x) && in_filter(opt.candidates, x) implies nns@.contains(x) by {
+                    assert(covered(m, nns_a, queue.view(), x));
+                    assert(nns_a.contains(x));
+                    assert(nns_b.contains(x));
+                }
             }
         }
 //@hint before <<<let mut sorted_nns = BinaryHeap::from(nns_distances);>>>
@@ -144,7 +193,15 @@ dedup_(&mut nns);
             }
         }
 //@hint after <<<let mut sorted_nns = BinaryHeap::from(nns_distances);>>>
+        let ghost total = sorted_nns.view().len();
         proof {
+            if sf && unl {
+                assert forall|x: u32| #![trigger items.contains(x)] items.contains(x) && in_filter(opt.candidates, x) implies in_heap(sorted_nns.view(), x) by {
+                    let j = choose|j: int| 0 <= j < nns@.len() && nns@[j] == x;
+                    assert((nd[j].0).1 == x);
+                    assert(sorted_nns.view().count(nd[j]) > 0);
+                }
+            }
             assert forall|e: Reverse<(OrderedFloat, ItemId)>| sorted_nns.view().count(e) > 0 implies heap_elem_ok(rtxn.view(), self.index, opt.candidates, query_leaf.lv(), e) by {
                 assert(nd.contains(e));
                 let i = choose|i: int| 0 <= i < nd.len() && nd[i] == e;
@@ -155,14 +212,104 @@ dedup_(&mut nns);
         // C03: the budget is search_k (or count x number-of-trees, saturating) x oversampling (or the metric's default), saturating
         assert(search_k == sat_mul(match opt.search_k { Some(k) => k.v, None => sat_mul(opt.count, self.roots@.len() as usize) },
                                    match opt.oversampling { Some(o) => o.v, None => Dist::default_oversampling() }));
+//@hint before <<<let mut nns = Vec::new();>>>
+        let ghost m = tmap(rtxn.view(), self.index);
+        let ghost sf = search_forest_ok(rtxn.view(), self.index, self.roots@, self.items@);
+        let ghost qv = query_leaf.vector.vv();
+        let ghost items = self.items@;
+        let ghost unl = unlimited(opt, self.roots@.len() as usize);
+        proof {
+            if sf {
+                assert forall|x: u32| items.contains(x) && in_filter(opt.candidates, x) implies covered(m, Seq::<u32>::empty(), queue.view(), x) by {
+                    assert(items.len() > 0) by { if items.len() == 0 { assert(items =~= Set::<u32>::empty()); } }
+                    let e = (OrderedFloat(f32_inf_spec()), tn(self.roots@[0]));
+                    assert(queue.view().count(e) > 0);
+                    assert(titems(m, e.1).contains(x));
+                }
+            }
+        }
+//@hint before <<<let key = Key::new(self.index, item);>>>
+            proof {
+                lemma_item(m, item.item);
+                if item.mode == NodeMode::Tree { assert(item == tn(item.item)); } else { assert(item == itn(item.item)); }
+                if sf {
+                    assert(q0.count((OrderedFloat(dist), item)) > 0);
+                    assert(tree(m, item) && titems(m, item).subset_of(items));
+                    if item.mode == NodeMode::Tree { lemma_unfold(m, item.item); assert(rtxn.view().contains_key(tkey(self.index, item.item))); }
+                    else { assert(titems(m, item).contains(item.item)); assert(items.contains(item.item)); assert(rtxn.view().contains_key(ikey(self.index, item.item))); }
+                }
+            }
 //@loop 0
         invariant
             nodes_ok(rtxn.view(), self.index),
+            m == tmap(rtxn.view(), self.index), sf == search_forest_ok(rtxn.view(), self.index, self.roots@, self.items@), qv == query_leaf.vector.vv(),
+            items == self.items@, unl == unlimited(opt, self.roots@.len() as usize), unl ==> search_k == usize::MAX,
+            nns@.len() < usize::MAX,
+            // C04: every queued entry is a root or the Left/Right child of a split, with the priority of that side
+            forall|e: (OrderedFloat, NodeId)| #![trigger queue.view().count(e)] queue.view().count(e) > 0 ==> qentry_ok(m, self.roots@, qv, e),
+            // C02: nothing is lost: every stored item inside the filter was collected or lies below a queued node
+            sf ==> (forall|e: (OrderedFloat, NodeId)| #![trigger queue.view().count(e)] queue.view().count(e) > 0 ==> tree(m, e.1) && titems(m, e.1).subset_of(items)),
+            sf ==> (forall|j: int| 0 <= j < nns@.len() ==> items.contains(#[trigger] nns@[j])),
+            sf ==> (forall|x: u32| #![trigger items.contains(x)] items.contains(x) && in_filter(opt.candidates, x) ==> covered(m, nns@, queue.view(), x)),
             forall|x: (OrderedFloat, NodeId)| queue.view().count(x) > 0 ==> (x.1.mode == NodeMode::Tree || x.1.mode == NodeMode::Item),
             forall|i: int| 0 <= i < nns@.len() ==> in_filter(opt.candidates, #[trigger] nns@[i]),
+        ensures
+            unl ==> queue.view().len() == 0,
+//@loopstart 0
+            let ghost q0 = queue.view(); let ghost n0 = nns@;
+//@loopend 0
+            proof {
+                broadcast use vstd::multiset::group_multiset_axioms;
+                axiom_vec_len_bound(&nns);
+                let e0 = (OrderedFloat(dist), item);
+                let q1 = q0.remove(e0);
+                if item.mode == NodeMode::Tree { assert(item == tn(item.item)); } else { assert(item == itn(item.item)); }
+                lemma_item(m, item.item);
+                if sf && item.mode == NodeMode::Tree { lemma_unfold(m, item.item); }
+                // what this iteration did to the queue
+                let is_split = item.mode == NodeMode::Tree && m.contains_key(item.item) && m[item.item] is Split;
+                if is_split {
+                    let l = m[item.item]->Split_0; let r = m[item.item]->Split_1; let nrm = m[item.item]->Split_2;
+                    let el = (OrderedFloat(Dist::pq_spec(dist, Dist::margin_spec(nrm, qv), true)), l);
+                    let er = (OrderedFloat(Dist::pq_spec(dist, Dist::margin_spec(nrm, qv), false)), r);
+                    assert(queue.view() == q1.insert(el).insert(er));
+                    assert(child_entry(m, qv, (item.item, OrderedFloat(dist)), el) && child_entry(m, qv, (item.item, OrderedFloat(dist)), er));
+                    assert forall|e: (OrderedFloat, NodeId)| #![trigger queue.view().count(e)] queue.view().count(e) > 0 implies qentry_ok(m, self.roots@, qv, e) by {
+                        if e == el { assert(child_entry(m, qv, (item.item, OrderedFloat(dist)), e)); } else if e == er { assert(child_entry(m, qv, (item.item, OrderedFloat(dist)), e)); } else { assert(q1.insert(el).count(e) > 0); assert(q1.count(e) > 0); assert(q0.count(e) > 0); }
+                    }
+                } else {
+                    assert(queue.view() == q1);
+                    assert forall|e: (OrderedFloat, NodeId)| #![trigger queue.view().count(e)] queue.view().count(e) > 0 implies qentry_ok(m, self.roots@, qv, e) by { assert(q0.count(e) > 0); }
+                }
+                if sf {
+                    assert forall|x: u32| #![trigger items.contains(x)] items.contains(x) && in_filter(opt.candidates, x) implies covered(m, nns@, queue.view(), x) by {
+                        if n0.contains(x) { let j = choose|j: int| 0 <= j < n0.len() && n0[j] == x; assert(nns@[j] == x); }
+                        else {
+                            let e = choose|e: (OrderedFloat, NodeId)| #![trigger q0.count(e)] q0.count(e) > 0 && titems(m, e.1).contains(x);
+                            if e == e0 && q0.count(e0) == 1 {
+                                // x was below the node just expanded
+                                if item.mode == NodeMode::Item { assert(x == item.item); assert(nns@[n0.len() as int] == x); }
+                                else { match m[item.item] {
+                                    TNode::Desc(b) => { assert(b.contains(x)); assert(nns@.contains(x)); }
+                                    TNode::Split(l, r, nrm) => {
+                                        let el = (OrderedFloat(Dist::pq_spec(dist, Dist::margin_spec(nrm, qv), true)), l);
+                                        let er = (OrderedFloat(Dist::pq_spec(dist, Dist::margin_spec(nrm, qv), false)), r);
+                                        assert(queue.view().count(el) > 0 && queue.view().count(er) > 0);
+                                        if titems(m, l).contains(x) { assert(titems(m, el.1).contains(x)); } else { assert(titems(m, er.1).contains(x)); }
+                                    }
+                                } }
+                            } else { assert(queue.view().count(e) > 0); }
+                        }
+                    }
+                }
+            }
 //@loop 1
         invariant
             nodes_ok(rtxn.view(), self.index),
+            m == tmap(rtxn.view(), self.index), sf == search_forest_ok(rtxn.view(), self.index, self.roots@, self.items@), items == self.items@,
+            sf ==> (forall|j: int| 0 <= j < nns@.len() ==> items.contains(#[trigger] nns@[j])),
+            unl == unlimited(opt, self.roots@.len() as usize),
+            sf && unl ==> (forall|x: u32| #![trigger items.contains(x)] items.contains(x) && in_filter(opt.candidates, x) ==> nns@.contains(x)),
             0 <= idx__0 <= nns@.len(),
             forall|i: int| 0 <= i < nns@.len() ==> in_filter(opt.candidates, #[trigger] nns@[i]),
             forall|i: int, j: int| 0 <= i < j < nns@.len() ==> nns@[i] < nns@[j],
@@ -174,8 +321,32 @@ dedup_(&mut nns);
                 &&& in_filter(opt.candidates, (e.0).1)
                 &&& (e.0).0.0 == Dist::built_spec(query_leaf.lv(), leafv(rtxn.view(), self.index, (e.0).1))
             }),
+//@hint after <<<if output.len() == capacity {>>>
+                proof {
+                    broadcast use vstd::multiset::group_multiset_axioms;
+                    let xp = Reverse((OrderedFloat(dist), item));
+                    assert(capacity == opt.count);
+                    if sf && unl {
+                        assert forall|x: u32| #![trigger items.contains(x)] items.contains(x) && in_filter(opt.candidates, x) implies exact_at_exit(rtxn.view(), self.index, query_leaf.lv(), opt.count, output@, x) by {
+                            if !(exists|i: int| 0 <= i < output@.len() && output@[i].0 == x) {
+                                let e = choose|e: Reverse<(OrderedFloat, ItemId)>| #![trigger h0.count(e)] h0.count(e) > 0 && (e.0).1 == x;
+                                assert(heap_elem_ok(rtxn.view(), self.index, opt.candidates, query_leaf.lv(), e));
+                                assert forall|i: int| 0 <= i < output@.len() implies pair_le(
+                                    (Dist::built_spec(query_leaf.lv(), leafv(rtxn.view(), self.index, (#[trigger] output@[i]).0)), output@[i].0),
+                                    (Dist::built_spec(query_leaf.lv(), leafv(rtxn.view(), self.index, x)), x)) by {}
+                            }
+                        }
+                    }
+                }
 //@loop 2
+        invariant_except_break
+            sorted_nns.view().len() + output@.len() == total,
+            sf && unl ==> (forall|x: u32| #![trigger items.contains(x)] items.contains(x) && in_filter(opt.candidates, x) ==>
+                (exists|i: int| 0 <= i < output@.len() && output@[i].0 == x) || in_heap(sorted_nns.view(), x)),
         invariant
+            m == tmap(rtxn.view(), self.index), sf == search_forest_ok(rtxn.view(), self.index, self.roots@, self.items@), items == self.items@,
+            unl == unlimited(opt, self.roots@.len() as usize),
+            capacity == (if opt.count <= total { opt.count as int } else { total as int }),
             capacity <= opt.count, output@.len() <= capacity,
             // what is still in the heap
             forall|e: Reverse<(OrderedFloat, ItemId)>| #![trigger sorted_nns.view().count(e)] sorted_nns.view().count(e) > 0 ==> heap_elem_ok(rtxn.view(), self.index, opt.candidates, query_leaf.lv(), e),
@@ -187,11 +358,25 @@ dedup_(&mut nns);
             forall|i: int, j: int| #![trigger output@[i], output@[j]] 0 <= i < j < output@.len() ==> output@[i].0 != output@[j].0 && pair_le(
                     (Dist::built_spec(query_leaf.lv(), leafv(rtxn.view(), self.index, output@[i].0)), output@[i].0),
                     (Dist::built_spec(query_leaf.lv(), leafv(rtxn.view(), self.index, output@[j].0)), output@[j].0)),
+        ensures
+            sf && unl ==> (forall|x: u32| #![trigger items.contains(x)] items.contains(x) && in_filter(opt.candidates, x) ==> exact_at_exit(rtxn.view(), self.index, query_leaf.lv(), opt.count, output@, x)),
 //@loopstart 2
             let ghost out0 = output@;
+            let ghost h0 = sorted_nns.view().insert(Reverse((OrderedFloat(dist), item)));
 //@loopend 2
             proof {
+                broadcast use vstd::multiset::group_multiset_axioms;
                 let x = Reverse((OrderedFloat(dist), item));
+                if sf && unl {
+                    assert forall|y: u32| #![trigger items.contains(y)] items.contains(y) && in_filter(opt.candidates, y) implies
+                        (exists|i: int| 0 <= i < output@.len() && output@[i].0 == y) || in_heap(sorted_nns.view(), y) by {
+                        if exists|i: int| 0 <= i < out0.len() && out0[i].0 == y { let i = choose|i: int| 0 <= i < out0.len() && out0[i].0 == y; assert(output@[i].0 == y); }
+                        else {
+                            let e = choose|e: Reverse<(OrderedFloat, ItemId)>| #![trigger h0.count(e)] h0.count(e) > 0 && (e.0).1 == y;
+                            if e == x { assert(output@[out0.len() as int].0 == y); } else { assert(sorted_nns.view().count(e) > 0); }
+                        }
+                    }
+                }
                 assert(heap_elem_ok(rtxn.view(), self.index, opt.candidates, query_leaf.lv(), x));
                 assert(output@[out0.len() as int].0 == item);
                 assert forall|i: int| 0 <= i < out0.len() implies output@[i] == out0[i] by {}
@@ -211,6 +396,14 @@ dedup_(&mut nns);
 //@end
 }
 
+pub open spec fn in_heap(h: Multiset<Reverse<(OrderedFloat, ItemId)>>, x: u32) -> bool {
+    exists|e: Reverse<(OrderedFloat, ItemId)>| #![trigger h.count(e)] h.count(e) > 0 && (e.0).1 == x
+}
+/// item x is either returned or at least as far (in (distance, id) order) as every returned item, the result being full
+pub open spec fn exact_at_exit(v: DbView, i: u16, q: LeafV, count: usize, out: Seq<(ItemId, f32)>, x: u32) -> bool {
+    (exists|k: int| 0 <= k < out.len() && out[k].0 == x)
+    || (out.len() == count && forall|k: int| 0 <= k < out.len() ==> pair_le((Dist::built_spec(q, leafv(v, i, (#[trigger] out[k]).0)), out[k].0), (Dist::built_spec(q, leafv(v, i, x)), x)))
+}
 pub open spec fn heap_elem_ok(v: DbView, index: u16, c: Option<&RoaringBitmap>, q: LeafV, e: Reverse<(OrderedFloat, ItemId)>) -> bool {
     &&& v.contains_key(ikey(index, (e.0).1))
     &&& in_filter(c, (e.0).1)
